@@ -698,6 +698,68 @@ _s("rep_complex", r"""
                     i.in(milli(seconds)).real(), i.in(milli(seconds)).imag(), back.in(seconds).real(), back.in(seconds).imag(), int(a == seconds(C{3.0, -4.0})), sizeof(a));
 """, defs="#include <complex>\n")
 
+_s("unit_member_odr", r"""
+        // `::unit` is documented as a public static member variable of every Quantity and
+        // QuantityPoint type: bound to a reference (odr-used), as generic code does
+        const auto q = seconds(3);
+        const auto p = make_quantity_point<Minutes>(2.5);
+        const auto &qu = q.unit;
+        const auto &pu = decltype(p)::unit;
+        std::printf("unit_member_odr [%s] [%s] %d\n", unit_label_of_ref(qu), unit_label_of_ref(pu), int(static_cast<const void *>(&qu) != static_cast<const void *>(&pu)));
+""", defs="template <typename U>\nconst char *unit_label_of_ref(const U &u) { return au::unit_label(u); }\n")
+
+_s("rep_class_type", r"""
+        // a rep that is an ordinary pre-C++20 value class: arithmetic and the six relational
+        // operators, no operator<=>; same-unit, same-rep operations only
+        using L = Quantity<Seconds, probe_rep::Fixed3>;
+        using P = QuantityPoint<Seconds, probe_rep::Fixed3>;
+        constexpr L a = seconds(probe_rep::Fixed3::from_thousandths(1500));
+        constexpr L b = seconds(probe_rep::Fixed3::from_thousandths(2250));
+        constexpr P pp = make_quantity_point<Seconds>(probe_rep::Fixed3::from_thousandths(100));
+        constexpr P pq = make_quantity_point<Seconds>(probe_rep::Fixed3::from_thousandths(-250));
+        constexpr bool less = (a < b);
+        std::vector<L> v{b, a + b, a, b - a};
+        std::sort(v.begin(), v.end());
+        std::printf("rep_class_type %d %d %d %d %d %d | %lld %lld %lld %lld %lld | %lld %lld %lld %lld | %d %d %d %d %lld %d\n", int(less), int(a <= b), int(a > b), int(a >= b), int(a == b), int(a != b),
+                    (a + b).data_in(seconds).thousandths(), (b - a).data_in(seconds).thousandths(), min(a, b).data_in(seconds).thousandths(), max(a, b).data_in(seconds).thousandths(),
+                    clamp(a + b, a, b).data_in(seconds).thousandths(), v[0].data_in(seconds).thousandths(), v[1].data_in(seconds).thousandths(), v[2].data_in(seconds).thousandths(),
+                    v[3].data_in(seconds).thousandths(), int(pp < pq), int(pp > pq), int(pp == pq), int(pp != pq), (pp - pq).data_in(seconds).thousandths(), int((pp + a) > pp));
+""", defs="""#include <algorithm>
+#include <vector>
+namespace probe_rep {
+class Fixed3 {
+ public:
+    constexpr Fixed3() : raw_(0) {}
+    static constexpr Fixed3 from_thousandths(long long t) { return Fixed3(t); }
+    constexpr long long thousandths() const { return raw_; }
+    friend constexpr Fixed3 operator+(Fixed3 a, Fixed3 b) { return Fixed3(a.raw_ + b.raw_); }
+    friend constexpr Fixed3 operator-(Fixed3 a, Fixed3 b) { return Fixed3(a.raw_ - b.raw_); }
+    friend constexpr Fixed3 operator-(Fixed3 a) { return Fixed3(-a.raw_); }
+    friend constexpr bool operator==(Fixed3 a, Fixed3 b) { return a.raw_ == b.raw_; }
+    friend constexpr bool operator!=(Fixed3 a, Fixed3 b) { return a.raw_ != b.raw_; }
+    friend constexpr bool operator<(Fixed3 a, Fixed3 b) { return a.raw_ < b.raw_; }
+    friend constexpr bool operator<=(Fixed3 a, Fixed3 b) { return a.raw_ <= b.raw_; }
+    friend constexpr bool operator>(Fixed3 a, Fixed3 b) { return a.raw_ > b.raw_; }
+    friend constexpr bool operator>=(Fixed3 a, Fixed3 b) { return a.raw_ >= b.raw_; }
+
+ private:
+    constexpr explicit Fixed3(long long raw) : raw_(raw) {}
+    long long raw_;
+};
+}  // namespace probe_rep
+""")
+
+_s("noexcept_of_operators", r"""
+        // what the noexcept operator says about the library's operators (generic code branches on it)
+        constexpr auto a = seconds(1);
+        constexpr auto b = seconds(2);
+        constexpr auto x = minutes(1.5);
+        constexpr auto p = make_quantity_point<Seconds>(1);
+        constexpr auto q = make_quantity_point<Seconds>(2);
+        std::printf("noexcept_of_operators %d %d %d %d %d %d %d %d %d %d\n", int(noexcept(a == b)), int(noexcept(a < b)), int(noexcept(x != x)), int(noexcept(x >= x)), int(noexcept(p == q)),
+                    int(noexcept(p > q)), int(noexcept(a + b)), int(noexcept(a.in(seconds))), int(noexcept(-a)), int(noexcept(p - q)));
+""")
+
 _s("float_inexact", r"""
         // Inexact values are fine to print as long as the *sequence of operations* is fixed by the
         // library (IEEE arithmetic is deterministic; no -ffast-math, no FMA contraction on the
